@@ -1,6 +1,11 @@
 //! C06 — message size limits are enforced exactly and without collateral loss.
+//! Case kinds: `enc` / `dec` (framing.rs), `lim.srv` / `lim.cli` / `lim.gen` (below), and — added by the
+//! proactive dimension audit, see the header of c06_x.rs — `lim.seq`, `lim.genp`, `dech`.
 use crate::common::*;
 use crate::framing::*;
+
+#[path = "c06_x.rs"]
+mod x;
 
 pub fn generate(tier: &str, rng: &mut Rng) -> Vec<String> {
     let thorough = tier == "thorough";
@@ -78,6 +83,13 @@ pub fn generate(tier: &str, rng: &mut Rng) -> Vec<String> {
         out.push(c.line());
     }
     out.extend(gen_limits(tier, rng));
+    // ---- dimensions added by the proactive audit (c06_x.rs)
+    x::gen_dec_dims(&mut out);
+    x::gen_enc_dims(&mut out);
+    x::gen_dech(tier, rng, &mut out);
+    let gen_lines: Vec<String> = out.iter().filter(|l| l.starts_with("lim.gen ")).cloned().collect();
+    x::gen_lim_genp(&gen_lines, rng, &mut out);
+    x::gen_lim_seq(tier, rng, &mut out);
     out
 }
 
@@ -87,6 +99,9 @@ pub fn execute(case: &str) -> String {
         "lim.srv" => exec_lim_srv(&t),
         "lim.cli" => exec_lim_cli(&t),
         "lim.gen" => exec_lim_gen(&t),
+        "lim.genp" => x::exec_lim_genp(&t),
+        "lim.seq" => x::exec_lim_seq(&t),
+        "dech" => x::exec_dech(&t),
         _ => crate::framing::execute(case),
     }
 }
